@@ -61,13 +61,13 @@ def _reset_block_names():
 
 
 def build(t, fam, max_t, n_workers):
-    from syne_tune.config_space import choice, finrange, logfinrange, loguniform, randint, uniform
+    from syne_tune.config_space import choice, finrange, logfinrange, loguniform, qrandint, quniform, randint, uniform
 
     use_mra = fam in ("hb-promotion", "hb-pasha", "hb-cost", "sync-hb", "dehb", "hb-bo-promotion") and t.bool()
     if fam == "fifo-grid":
         cs = {"x": choice(["a", "b", "c"]), "y": randint(0, 3)}
     else:
-        cs = {"x": uniform(0.0, 1.0), "y": randint(0, 4), "z": choice(["u", "v"]), "w": finrange(0.0, 1.0, 6), "v": logfinrange(0.001, 1.0, 4), "u": loguniform(0.001, 1.0)}
+        cs = {"x": uniform(0.0, 1.0), "y": randint(0, 4), "z": choice(["u", "v"]), "w": finrange(0.0, 1.0, 6), "v": logfinrange(0.001, 1.0, 4), "u": loguniform(0.001, 1.0), "q": quniform(0.0, 1.0, 0.25), "p": qrandint(0, 8, 2)}
     pts = t.weighted([(2, None), (1, []), (2, "some")])
     if pts == "some":
         pts = [{"y": t.int(0, 3)} for _ in range(t.int(1, 3))]
